@@ -152,8 +152,49 @@ def correspondence(ctx):
         if impl != model:
             ctx.disagree('c18/' + call, case, impl, model, 'shape / exception class differs')
     batch_layout(ctx, cfgs)
+    scalar_events(ctx)
     ctx.exhaustive = True
     ctx.extra['configurations'] = [c.name for c in cfgs]
+
+
+def scalar_events(ctx, report=None):
+    """event shape [] (inputs of shape [batch]): the documented shapes with an EMPTY event part — log_prob [rows], sample [n] / [R, n],
+    sample_and_log_prob ([n], [n]) / ([R, n], [R, n]); the grid above keeps event dimensions positive, the shape model (Core/Dist:
+    result = leading ++ event) covers the empty event as it stands"""
+    from nflows.distributions import normal, discrete
+    from nflows.flows.base import Flow
+    from nflows.transforms import IdentityTransform
+    built = [('StandardNormal[]', lambda: normal.StandardNormal([]), None), ('ConditionalDiagonalNormal[]', lambda: normal.ConditionalDiagonalNormal([]), 2),
+             ('ConditionalIndependentBernoulli[]', lambda: discrete.ConditionalIndependentBernoulli([]), 1),
+             ('Flow(Identity, StandardNormal[])', lambda: Flow(IdentityTransform(), normal.StandardNormal([])), None)]
+    for name, mk, cw in built:
+        d = mk(); d.eval()
+        for R_ in ((None,) if cw is None else (1, 3)):
+            c = None if cw is None else torch.zeros(R_, cw)
+            rows = 4 if R_ is None else R_
+            cells_ = [('log_prob', lambda: d.log_prob(torch.zeros(rows), c), [[rows]])]
+            for n in (1, 3):
+                lead = [n] if R_ is None else [R_, n]
+                cells_.append(('sample', lambda n=n: d.sample(n, c), [lead]))
+                cells_.append(('sample_and_log_prob', lambda n=n: d.sample_and_log_prob(n, c), [lead, lead]))
+                cells_.append(('sample/batched', lambda n=n: d.sample(n, c, batch_size=2), [lead]))
+            for call, f, want in cells_:
+                try:
+                    with torch.no_grad():
+                        r = f()
+                    got = [list(r.shape)] if torch.is_tensor(r) else [list(t.shape) for t in r]
+                    kind = 'ok'
+                except Exception as e:
+                    got, kind = DF.err_kind(e), 'err'
+                if report is None:
+                    ctx.case(key=('scalar-event', name, call, R_, json.dumps(want)), branch='scalar-event/' + call, nontrivial=True)
+                if kind != 'ok' or got != want:
+                    case = {'class': name, 'call': call, 'context_rows': R_, 'event_shape': []}
+                    if report is None:
+                        ctx.disagree('c18/scalar-event', case, got, want, 'shape with an empty event part differs from leading ++ event')
+                    else:
+                        report('%s.%s with scalar events returns %s, documented %s' % (name, call, got, want), case,
+                               {'class': name.split('[')[0].split('(')[0], 'symptom': 'scalar-event-shape', 'call': call})
 
 
 # ---- value level: draw k of a batched sample is draw (k mod b) of batch (k div b), for every context row -------------
@@ -308,6 +349,7 @@ def search(ctx):
                 seen.add(key)
                 ctx.fail(what, case_of(cfg, call, n, b, rows, in_shape), match=match)
         oracle_values(ctx, cfg, obj)
+    scalar_events(ctx, report=lambda what, case, match: ctx.fail(what, case, match=match) if json.dumps(match, sort_keys=True) not in seen and not seen.add(json.dumps(match, sort_keys=True)) else None)
 
 
 def _find_cfg(ctx, name):
